@@ -1,3 +1,8 @@
+// The repository's go.mod says "go 1.18", so programs built from it get the
+// pre-1.22 http.ServeMux pattern semantics. The harness must behave alike
+// whatever "go" line the toolchain writes into its own go.mod.
+//
+//go:debug httpmuxgo121=1
 package main
 
 import (
